@@ -197,6 +197,15 @@ Theorem C13_pool_shared_buffer_refuted :
 Proof. exact shared_buffer_refuted. Qed.
 Print Assumptions C13_pool_shared_buffer_refuted.
 
+(* /repo before the fix: for a packet of a track the viewer did not set up the empty staging buffer was
+   sent — a message that is neither a response nor a frame; the oracle refuses it *)
+Theorem C13_pool_empty_message_refuted :
+  let s := prun [(0,0);(0,0);(0,0)] (pinit [[IGet 0 true; ISend 0 1; IPut 0]]) in
+  pfinished 1 s = true /\ map snd (on_conn 1 (ps_out s)) = [[]] /\
+  ok_pool [[IGet 0 true; IPut 0]] (pobserve [1] s) (ps_pool s) = false.
+Proof. exact empty_message_refuted. Qed.
+Print Assumptions C13_pool_empty_message_refuted.
+
 (* non-vacuity: Session.process as it is (one buffer per request, Puts deferred to the end), an
    earlier session, a media goroutine; the pool asked for a position it does not have *)
 Example C13_pool_nonvacuous :
